@@ -28,8 +28,8 @@ just registered, the bot's view equals the projection of the server state (`Coup
 channels the bot is on; for each of them members, ops, halfops, voices, topic, modes, bans; the hostmask of
 every nick the bot can see; the bot's own prefix once it is on a channel), and the server state is
 well-formed.  Hypotheses: a valid configuration with `multi-prefix` negotiated, and `Act.ok` for every
-action, i.e. no MODE change on the invite-exception list and no mode argument that `int()` rewrites —
-the two known findings, see `view_refines_fails_invex` / `view_refines_fails_intarg` below.
+action, i.e. no mode argument that `int()` rewrites (`+k 0123`, `+l 007`) — the known finding
+C10-mode-arg-int, see `view_refines_fails_intarg` below.
 
 Full statement (false on the pinned tree, kept visible):
   `∀ cfg acts, cfg.valid → cfg.multiPrefix → let r := run (Srv.init cfg) (Bot.init cfg.botNick cfg.botIdent) acts; Coupled r.1 r.2`
@@ -182,7 +182,7 @@ theorem reconnect_clears {s : Srv} {b : Bot} (hw : SrvWF s) (hc : Coupled s b)
     have a := has_remove_of hcon
     rw [not_has_of_free hw hsc h] at a; cases a
 
-/-! ### the two known findings: the full statement fails on these witnesses -/
+/-! ### the known finding: the full statement fails on this witness -/
 
 def cfg0 : Cfg :=
   { server := "irc.srv".toList, multiPrefix := true, uhnames := false, extJoin := false, chghost := true, whox := true,
@@ -206,19 +206,6 @@ theorem modesAgree_of_coupled {s : Srv} {b : Bot} (hc : Coupled s b) (k : Str) (
       rw [hs, hb] at h
       simp only [ChanRel] at h
       simp [h.2.modes m]
-
-/-- finding C10-invex-in-modes: `MODE #c +I x!*@*` is recorded as a channel mode -/
-def invexWitness : List Act :=
-  [.join "test".toList ["#c".toList], .mode [] "#c".toList [⟨true, 'I', some "x!*@*".toList⟩]]
-
-set_option maxRecDepth 100000 in
-theorem view_refines_fails_invex :
-    ¬ Coupled (run (Srv.init cfg0) (Bot.init cfg0.botNick cfg0.botIdent) invexWitness).1
-        (run (Srv.init cfg0) (Bot.init cfg0.botNick cfg0.botIdent) invexWitness).2 := by
-  intro hc
-  have h := modesAgree_of_coupled hc "#c".toList 'I'
-  revert h
-  decide +kernel
 
 /-- finding C10-mode-arg-int: `MODE #c +k 0123` stores the key as the number 123 -/
 def intargWitness : List Act :=
@@ -254,7 +241,7 @@ example : ∀ a ∈ sampleRun, a.ok := by
   rcases ha with rfl | rfl | rfl | rfl | rfl | rfl | rfl | rfl <;> try trivial
   intro c hc
   simp only [List.mem_cons, List.not_mem_nil, or_false] at hc
-  rcases hc with rfl | rfl | rfl | rfl | rfl <;> refine ⟨by decide, ?_⟩ <;> intro a ha <;>
+  rcases hc with rfl | rfl | rfl | rfl | rfl <;> intro a ha <;>
     first | (cases ha; decide +kernel) | cases ha
 
 def sampleBefore : Srv × Bot := run (Srv.init cfg0) (Bot.init cfg0.botNick cfg0.botIdent) sampleRun.dropLast
